@@ -7,17 +7,17 @@
 (* iauthd-c (one process per line):                                        *)
 (*                                                                         *)
 (*   {"n":4, "deps":[[2,3],[4],[4],[]], "list":[1], "missing":[],          *)
-(*    "nopost":[2,4], "nodtor":[3],                                        *)
+(*    "nopost":[2,4], "nodtor":[3], "noctor":[4],                          *)
 (*    "log":[["ctor-begin",1],["ctor-begin",2],...,["running",0],          *)
 (*           ["dtor",1],...], "events":17, "status":0}                     *)
 (*                                                                         *)
 (* n / deps / list / missing are the case that was rendered into the stub  *)
 (* modules' dependency file, the library directory and the `modules` list  *)
-(* of the configuration; nopost / nodtor are the hook profile: the modules *)
-(* whose shared object was the stub variant built without module_post_init *)
-(* / without module_destructor; "log" is the event log the stub modules   *)
-(* wrote, in order (Python only splits each line into kind and module      *)
-(* number);                                                                *)
+(* of the configuration; nopost / nodtor / noctor are the hook profile:    *)
+(* the modules whose shared object was the stub variant built without      *)
+(* module_post_init / without module_destructor / without                  *)
+(* module_constructor; "log" is the event log the stub modules wrote, in   *)
+(* order (Python only splits each line into kind and module number);       *)
 (* "events" is the number of lines of that log file (guards the transport);*)
 (* "status" is the exit status of the process (negative: killed by that    *)
 (* signal).  ["running",0] is written from inside main()'s event loop.     *)
@@ -39,11 +39,11 @@ StartLine == IF "START" \in DOMAIN IOEnv
              ELSE 1
 
 CaseOf(r) == [n |-> r.n, deps |-> r.deps, list |-> r.list, missing |-> Range(r.missing),
-              nopost |-> Range(r.nopost), nodtor |-> Range(r.nodtor)]
+              nopost |-> Range(r.nopost), nodtor |-> Range(r.nodtor), noctor |-> Range(r.noctor)]
 LogOf(r)  == [i \in 1..Len(r.log) |-> Ev(r.log[i][1], r.log[i][2])]
 
 LineOK(r) ==
-    /\ {"n", "deps", "list", "missing", "nopost", "nodtor", "log", "events", "status"} \subseteq DOMAIN r
+    /\ {"n", "deps", "list", "missing", "nopost", "nodtor", "noctor", "log", "events", "status"} \subseteq DOMAIN r
     /\ r.events = Len(r.log)
     /\ \A i \in 1..Len(r.log) : Len(r.log[i]) = 2
     /\ WellFormed(CaseOf(r), LogOf(r), r.status)
